@@ -548,6 +548,12 @@ func concreteLen(fr *frame, pos token.Pos, v value, what string) int {
 }
 
 func evalBinop(fr *frame, instr *ssa.BinOp, x, y value) value {
+	if _, px := x.(poisonByte); px {
+		panic(engineFault{"the formatted text of a symbolic number is used in a computation (formatting is stubbed)"})
+	}
+	if _, py := y.(poisonByte); py {
+		panic(engineFault{"the formatted text of a symbolic number is used in a computation (formatting is stubbed)"})
+	}
 	_, sx := x.(*symv)
 	_, sy := y.(*symv)
 	_, ssx := x.(symstr)
@@ -869,7 +875,7 @@ func pkgOf(fn *ssa.Function) *ssa.Package {
 func denyInit(path string) bool {
 	switch path {
 	case "runtime", "unsafe", "reflect", "syscall", "os", "sync", "sync/atomic", "internal/reflectlite",
-		"time", "os/signal", "os/exec", "net", "net/http", "crypto/rand", "math/rand", "math/rand/v2", "log",
+		"os/signal", "os/exec", "net", "net/http", "crypto/rand", "math/rand", "math/rand/v2", "log",
 		"internal/godebug", "os/user", "testing", "flag", "encoding/json", "mime", "crypto/tls", "crypto/x509":
 		return true
 	}
